@@ -403,6 +403,8 @@ def run(ctx):
         return pairs, line.strip()
 
     pcases = [[], [(0, 1)], [(1, 0), (0, 0)]]
+    # a pair holding the point at infinity is the factor 1 — the pairs AFTER it still count (one Miller loop each: false, false)
+    pcases += [[(0, 1), (rng.randrange(1, R), 1)], [(rng.randrange(1, R), 0), (1, rng.randrange(1, R))]]
     budget = 11 if quick else 80
     used = 0
 
